@@ -615,6 +615,8 @@ macro_rules! c17_ff {
         }
     };
 }
+c17_ff!(c17_first_a1_b1_c0, c17_follow_a1_b1_c0, 4, 3, 3, [1, 2, 3], [1, 1, 0], 6);
+c17_ff!(c17_first_t2_a1_b1_c0, c17_follow_t2_a1_b1_c0, 4, 2, 3, [1, 2, 3], [1, 1, 0], 6);
 c17_ff!(c17_first_a2_b2, c17_follow_a2_b2, 3, 3, 2, [1, 2], [2, 2], 6);
 c17_ff!(c17_first_a3_b0, c17_follow_a3_b0, 3, 3, 2, [1, 2], [3, 0], 6);
 c17_ff!(c17_first_a2_b1_c0, c17_follow_a2_b1_c0, 4, 3, 3, [1, 2, 3], [2, 1, 0], 6);
